@@ -233,3 +233,6 @@ for _pid, _w in _EFFN.items():
 for _pid in ('C01', 'C02', 'C09', 'C11', 'C13', 'C18'):
     CLAIMS[_pid]['text'] += (' %s_source_freshness: CalculateFreshness, calculateCurrentAge and heuristicFreshness (precedence of max-age / Expires / heuristics, request max-age / min-fresh / max-stale, '
                              'saturating sums, wrapping multiplication, truncating division) are re-derived from internal/freshness.go before every build and proved equal to the model for all inputs.' % _pid)
+
+CLAIMS['C09']['text'] += (' C09_store_then_hit: what StoreResponse wrote for (q, r) under a key without an index is served — no origin call, r\'s status and body — to every later request with the same key '
+                          'that the written reference matches and for which the decision is to serve, in every later world where that index and entry are unchanged.')
